@@ -182,6 +182,62 @@ pub fn ac12_25ft(alt_ft: i32) -> u16 {
     ((n & 0x7F0) << 1) | 0x10 | (n & 0x0F)
 }
 
+/// 12-bit altitude code with Q = 0: the Gillham code in 100 ft increments
+/// (-1200 .. 126700 ft), the only way to send an altitude above 50175 ft.
+/// Written from the definition (Annex 10 vol. IV, 3.1.2.6.5.4): the 500 ft
+/// count is a reflected Gray code on D2 D4 A1 A2 A4 B1 B2 B4, the 100 ft step
+/// a five-position code on C1 C2 C4 that runs backwards on odd 500 ft counts.
+pub fn ac12_gillham(alt_ft: i32) -> u16 {
+    let v = (alt_ft.clamp(-1200, 126_700) + 1200) / 100; // hundreds above -1200 ft
+    let n500 = (v / 5) as u16;
+    let mut n100 = (v % 5) as u16 + 1; // 1..=5
+    if n500 & 1 == 1 {
+        n100 = 6 - n100;
+    }
+    // C1 C2 C4 for the positions 1..=5
+    let c = [0b001u16, 0b011, 0b010, 0b110, 0b100][n100 as usize - 1];
+    let g = n500 ^ (n500 >> 1); // D2 D4 A1 A2 A4 B1 B2 B4, D2 first
+    let bit = |x: u16, i: u16| (x >> i) & 1;
+    let (d2, d4, a1, a2, a4, b1, b2, b4) = (bit(g, 7), bit(g, 6), bit(g, 5), bit(g, 4), bit(g, 3), bit(g, 2), bit(g, 1), bit(g, 0));
+    let (c1, c2, c4) = (bit(c, 2), bit(c, 1), bit(c, 0));
+    // field order: C1 A1 C2 A2 C4 A4 B1 Q B2 D2 B4 D4
+    (c1 << 11) | (a1 << 10) | (c2 << 9) | (a2 << 8) | (c4 << 7) | (a4 << 6) | (b1 << 5) | (b2 << 3) | (d2 << 2) | (b4 << 1) | d4
+}
+
+/// A transponder reports in 100 ft Gillham steps above 50175 ft (it has to) and,
+/// for one address in nine, at every altitude (older altitude encoders).
+pub fn uses_gillham(icao: u32, alt_ft: i32) -> bool {
+    alt_ft > 50_175 || icao % 9 == 0
+}
+
+pub fn ac12(alt_ft: i32, gillham: bool) -> u16 {
+    if gillham {
+        ac12_gillham(alt_ft)
+    } else {
+        ac12_25ft(alt_ft)
+    }
+}
+
+/// the altitude a receiver reads from `ac12(alt_ft, gillham)`, None when the
+/// field says "no altitude" (0 ft and below)
+pub fn altitude_as_sent(alt_ft: i32, gillham: bool) -> Option<i32> {
+    if gillham {
+        let a = (alt_ft.clamp(-1200, 126_700) + 1200) / 100 * 100 - 1200;
+        if a >= 0 {
+            Some(a)
+        } else {
+            None
+        }
+    } else {
+        let n = ((alt_ft + 1000) / 25).clamp(0, 2047);
+        if n * 25 > 1000 {
+            Some(n * 25 - 1000)
+        } else {
+            None
+        }
+    }
+}
+
 /// DF17 airborne position (TC 9..18 barometric, 20..22 GNSS)
 pub fn df17_airborne_position(
     icao: u32,
@@ -191,11 +247,23 @@ pub fn df17_airborne_position(
     lon: f64,
     odd: bool,
 ) -> (Vec<u8>, CprEnc) {
+    df17_airborne_position_alt(icao, tc, ac12_25ft(alt_ft), lat, lon, odd)
+}
+
+/// the same with the 12-bit altitude field given
+pub fn df17_airborne_position_alt(
+    icao: u32,
+    tc: u8,
+    ac12: u16,
+    lat: f64,
+    lon: f64,
+    odd: bool,
+) -> (Vec<u8>, CprEnc) {
     let c = cpr_encode(lat, lon, odd, false);
     let mut me: u64 = 0;
     me |= (tc as u64 & 0x1F) << 51;
     // SS = 0, SAF/NICb = 0
-    me |= (ac12_25ft(alt_ft) as u64) << 36;
+    me |= (ac12 as u64 & 0xFFF) << 36;
     // T = 0
     me |= (odd as u64) << 34;
     me |= (c.yz as u64) << 17;
@@ -503,4 +571,50 @@ pub fn pick_start(rng: &mut Rng) -> (f64, f64) {
         _ => rng.frange(-180.0, 180.0),
     };
     (lat.clamp(-89.0, 89.0), lon)
+}
+
+
+/// `./check selftest`: the driver's altitude encoders against the real decoder,
+/// over the whole range (done once by hand after a change of world.rs; not part
+/// of any registered check: a decoder that misreads altitudes must show as a
+/// violation of a property, not as a harness error)
+pub fn selftest() -> i32 {
+    use rs1090::prelude::*;
+    let mut bad = 0;
+    let mut n = 0;
+    for gillham in [false, true] {
+        let (lo, hi, step) = if gillham { (-1200, 126_700, 100) } else { (-1000, 50_175, 25) };
+        let mut alt = lo;
+        while alt <= hi {
+            for extra in [0, 7, step - 1] {
+                let a = alt + extra;
+                if a > hi {
+                    continue;
+                }
+                let (frame, _) = df17_airborne_position_alt(0x4b1234, 11, ac12(a, gillham), 45.0, 5.0, false);
+                let got = match Message::try_from(frame.as_slice()) {
+                    Ok(m) => match m.df {
+                        ExtendedSquitterADSB(adsb) => match adsb.message {
+                            ME::BDS05(p) => p.alt.map(|x| x as i32),
+                            _ => Some(-999_999),
+                        },
+                        _ => Some(-999_999),
+                    },
+                    Err(_) => Some(-999_998),
+                };
+                // (the decoder keeps altitudes in a u16: nothing above 65535 ft)
+                let want = altitude_as_sent(a, gillham).filter(|x| *x <= 65_535);
+                n += 1;
+                if got != want {
+                    bad += 1;
+                    if bad <= 10 {
+                        println!("selftest: altitude {} ft (gillham={}): sent as {:?}, decoder read {:?}", a, gillham, want, got);
+                    }
+                }
+            }
+            alt += step;
+        }
+    }
+    println!("selftest: {} altitudes, {} disagreements", n, bad);
+    if bad == 0 { 0 } else { 2 }
 }
